@@ -250,6 +250,11 @@ def _case(draw, tier, want):
     spec = dict(on=on, on_form=draw(st.sampled_from(['list', 'str'])) if nk == 1 else 'list', scheme=scheme, size='large' if large else 'small',
                 inputs=inputs, defaults=defaults, sigdefs=sigdefs, defaults_form=form,
                 positional=draw(st.booleans()), fret=draw(st.sampled_from(FRETS)), again=draw(st.booleans()))
+    # half of the sequence-valued non-table inputs are exactly as long as the result: still ONE value for every row, not a column
+    K = model_keys(spec)
+    for i in inputs:
+        if i['kind'] == 'scalar' and isinstance(i['value'], list) and i['value'][0] in ('list', 'tuple') and K and 2 <= len(K) <= 8 and draw(st.booleans()):
+            i['value'] = [i['value'][0], [(3 * r + 1) % 7 for r in range(len(K))]]
     if want != 'expiry':
         return spec
     # ---- expiry: needs a table input without default (see ASSUMPTIONS)
@@ -827,7 +832,7 @@ SUBS = [
         rule=_RULE + 'Oracle: key-set algebra (intersection of the tables without default, else union of those with default), rows ascending by key, value = f(row) with f '
              'a recording closure, f called exactly once per row (multiset of argument tuples), all scalars -> f(...) itself, empty key set -> None or no rows. '
              'non-trivial = >= 2 tables with non-empty non-total overlap, or a default that fills a missing key',
-        floor=0.15, class_floors={'sequence_valued_scalar': 0.05, 'sequence_valued_scalar_as_long_as_the_result': 0.004, 'partial_overlap': 0.1, 'default_extends_keys': 0.03, 'all_scalars': 0.02, 'empty_result': 0.03, 'on_not_alphabetical': 0.1,
+        floor=0.15, class_floors={'sequence_valued_scalar': 0.05, 'sequence_valued_scalar_as_long_as_the_result': 0.015, 'partial_overlap': 0.1, 'default_extends_keys': 0.03, 'all_scalars': 0.02, 'empty_result': 0.03, 'on_not_alphabetical': 0.1,
                                   'disjoint_tables': 0.01, 'empty_table': 0.03, 'scalar_broadcast': 0.15, 'rows>=3': 0.2, 'nan_key': 0.03,
                                   'large': 0.04, 'large_result>=64': 0.02, 'one_table_8x_longer': 0.008, 'same_keyset_other_order': 0.04,
                                   'same_keyset_same_ends_other_order': 0.005, 'same_length_same_ends_other_keys': 0.005, 'table_presorted': 0.1,
@@ -841,7 +846,7 @@ SUBS = [
     Sub('join', lambda tier: _case(tier, 'join'), run_join, quick=3000, thorough=12000,
         rule=_RULE + 'join(inputs, on, defaults = ...) against the same key-set model: exact key set, ascending order, one column per input holding the table value / default / '
              'broadcast scalar. non-trivial as for perdictable',
-        floor=0.15, class_floors={'sequence_valued_scalar': 0.05, 'sequence_valued_scalar_as_long_as_the_result': 0.004, 'partial_overlap': 0.1, 'default_extends_keys': 0.02, 'empty_result': 0.03, 'on_not_alphabetical': 0.1, 'scalar_broadcast': 0.15,
+        floor=0.15, class_floors={'sequence_valued_scalar': 0.05, 'sequence_valued_scalar_as_long_as_the_result': 0.015, 'partial_overlap': 0.1, 'default_extends_keys': 0.02, 'empty_result': 0.03, 'on_not_alphabetical': 0.1, 'scalar_broadcast': 0.15,
                                   'valcol=self+data': 0.05, 'rows>=3': 0.2, 'large': 0.04, 'large_result>=64': 0.02, 'one_table_8x_longer': 0.008, 'same_keyset_other_order': 0.04,
                                   'same_keyset_same_ends_other_order': 0.005, 'same_length_same_ends_other_keys': 0.005, 'table_presorted': 0.1, 'names_nested': 0.3,
                                   'second_call': 0.2, 'falsy_default_fills_row': 0.01, 'default_for_absent_input': 0.1, 'positional': 0.2, 'falsy_key': 0.2}),
